@@ -123,7 +123,12 @@ fn script(c: &Case) -> String {
         s.push_str(&format!("( set -- {w}; argdump \"$@\" )\n"));
         s.push_str(&format!("( argdump {w} )\n"));
         s.push_str(&format!("( for x in {w}; do argdump \"$x\"; done )\n"));
-        s.push_str(&format!("( arr=({w}); argdump \"${{arr[@]}}\" )\n"));
+        // inside an array literal a word of the form `[subscript]=value` is an element assignment, not a
+        // word to expand (and bash decides that before brace expansion, brush after): not this property
+        let looks_like_element_assignment = w.starts_with('[') && w.contains("]=");
+        if !looks_like_element_assignment {
+            s.push_str(&format!("( arr=({w}); argdump \"${{arr[@]}}\" )\n"));
+        }
     }
     s.push_str("echo @END\n");
     s
